@@ -142,3 +142,14 @@ Definition raw_ok (c : string * string * string * string) : bool :=
   let S := untagged (dec2 s) in
   nlist_eqb (plain (sub2 S)) (dec2 o2) && nlist_eqb (plain (sub3 S)) (dec2 o3) &&
   nlist_eqb (plain (blank_lines S)) (dec2 ob).
+
+(* ---- fix_line_lengths' dedent / re-indent frame: (lines of the range, indent the code computed,
+   lines after textwrap.dedent, lines handed to textwrap.indent, lines it returned); the last three are
+   only there when the indent is positive *)
+Require Import Pyrefact.FrameModel.
+Definition frame_case_ok (c : list string * nat * list string * list string * list string) : bool :=
+  let '(cur, n, ded, new, ind) := c in
+  let cur := map dec2 cur in
+  (level cur =? n)%nat &&
+  (if (0 <? n)%nat then lines_eqb (dedent cur) (map dec2 ded) && lines_eqb (indent_by n (map dec2 new)) (map dec2 ind)
+   else true).
